@@ -830,3 +830,11 @@ seed("c09-cg-indefinite-divisor", "C09", SP, "            alpha = rho / p.dot( &
 seed("c09-bicgstab-new-indefinite", "C09", SP, "            omega = t.dot( &s ) / t.dot( &t );", "            omega = t.dot( &s ) / t.dot( &shat );", "breakdown-free/solve_bicgstab/inner-product#4")
 seed("n-c09-cg-dot-commuted", "C09", SP, "            alpha = rho / p.dot( &q );", "            alpha = rho / q.dot( &p );", "SILENT", "neutral: the inner product is symmetric")
 seed("n-c09-bicgstab-dots-named", "C09", SP, "            omega = t.dot( &s ) / t.dot( &t );", "            let ts = t.dot( &s );\n            let tt = t.dot( &t );\n            omega = ts / tt;", "SILENT", "neutral: naming the two inner products")
+seed("c09-cg-stale-rho", "C09", SP, """            if resid <= tol && self.true_residual( b, x, normb ) <= tol { return Ok( i ); }
+            rho_1 = rho;
+        }""", """            if resid <= tol && self.true_residual( b, x, normb ) <= tol { return Ok( i ); }
+            if i == 1 { rho_1 = rho; }
+        }""", "carried/solve_cg")
+seed("c09-bicgstab-omega-one-arm", "C09", SP, "            omega = t.dot( &s ) / t.dot( &t );", "            if i > 1 { omega = t.dot( &s ) / t.dot( &t ); }", "carried/solve_bicgstab")
+seed("n-c09-cg-rho-early", "C09", SP, """            alpha = rho / p.dot( &q );""", """            alpha = rho / p.dot( &q );
+            rho_1 = rho;""", "SILENT", "neutral: the carried scalar refreshed earlier in the iteration as well (it is not read again before the end)")
